@@ -25,6 +25,7 @@ RULE = (
     "(8,j,i) of the independent reference (1e-6). Non-trivial: >= 4 tiles or depth 0; distinct by spec."
     ' Also: big-endian sampler outputs; the two update passes as two concurrent jobs on one pyramid (statement-boundary delays, 300x di'
     'lated lock clock, a slow source for the first tiles of one job); producer-stall / late-check profiles in the parallel runs.'
+    " Round 8: unfiltered depth-3 layers with 3/5/6/7 workers; entry 'reused_pyramid' (one Pyramid object sampled before and after its depth attribute changes)."
 )
 ASSUMPTIONS = ["toast_tile_get_coords is trusted here (decided by C05)", "samplers are functions of cos/sin of the longitude (grids may be on any 2pi branch)"]
 SAMPLERS = ["f64pos", "f32", "u8", "i16", "rgb", "rgba", "f32_be", "f64pos_be", "i16_be"]
